@@ -22,9 +22,26 @@ L5 == [name |-> "L5", linear |-> TRUE, vars |-> <<"g", "y">>, logv |-> {}, shock
        T |-> << <<R(1), RZero>>, <<RZero, Q(1, 2)>> >>, K |-> <<RZero, RZero>>,
        roots |-> <<R(1), Q(1, 2)>>, fwd |-> 0]
 L5R0 == << <<R(1), RZero>>, <<R(1), R(1)>> >>
-GModel(id) == IF id = "L5" THEN L5 ELSE Model(id)
-GR0(id) == IF id = "L5" THEN L5R0 ELSE Rk(id, 0)
-UnitVars(id) == IF id = "L5" THEN {1} ELSE {}
+\* one state, two observables with separate measurement shocks
+LK == [name |-> "LK", linear |-> TRUE, vars |-> <<"x">>, logv |-> {}, shocks |-> <<"ex">>,
+       eqs |-> << [tx |-> << <<R(1), 1, 0>>, <<Q(-1, 2), 1, -1>> >>, te |-> << <<R(-1), 1>> >>, c |-> R(-1)] >>,
+       mvars |-> <<"oa", "ob">>, mshocks |-> <<"wa", "wb">>,
+       meqs |-> << [tx |-> << <<R(1), 1, 0>> >>, d |-> RZero, tw |-> << <<R(1), 1>> >>],
+                   [tx |-> << <<R(2), 1, 0>>, <<R(-1), 1, -1>> >>, d |-> R(1), tw |-> << <<R(1), 2>> >>] >>,
+       T |-> << <<Q(1, 2)>> >>, K |-> <<R(1)>>, roots |-> <<Q(1, 2)>>, fwd |-> 0]
+\* two states (x feeds z with a lag), one observable of z
+LK2 == [name |-> "LK2", linear |-> TRUE, vars |-> <<"x", "z">>, logv |-> {}, shocks |-> <<"ex">>,
+        eqs |-> << [tx |-> << <<R(1), 1, 0>>, <<Q(-1, 2), 1, -1>> >>, te |-> << <<R(-1), 1>> >>, c |-> RZero],
+                   [tx |-> << <<R(1), 2, 0>>, <<Q(-1, 2), 2, -1>>, <<R(-1), 1, -1>> >>, te |-> <<>>, c |-> RZero] >>,
+        mvars |-> <<"oz">>, mshocks |-> <<"w">>,
+        meqs |-> << [tx |-> << <<R(1), 2, 0>> >>, d |-> RZero, tw |-> << <<R(1), 1>> >>] >>,
+        T |-> << <<Q(1, 2), RZero>>, <<R(1), Q(1, 2)>> >>, K |-> <<RZero, RZero>>, roots |-> <<Q(1, 2), Q(1, 2)>>, fwd |-> 0]
+\* as L5 but the observable loads on the level of the random walk
+L5B == [L5 EXCEPT !.name = "L5B", !.mvars = <<"og">>,
+                  !.meqs = << [tx |-> << <<R(1), 1, 0>>, <<R(1), 2, 0>> >>, d |-> RZero, tw |-> << <<R(1), 1>> >>] >>]
+GModel(id) == CASE id = "L5" -> L5 [] id = "L5B" -> L5B [] id = "LK" -> LK [] id = "LK2" -> LK2 [] OTHER -> Model(id)
+GR0(id) == CASE id = "L5" -> L5R0 [] id = "L5B" -> L5R0 [] id = "LK" -> << <<R(1)>> >> [] id = "LK2" -> << <<R(1)>>, <<RZero>> >> [] OTHER -> Rk(id, 0)
+UnitVars(id) == IF id \in {"L5", "L5B"} THEN {1} ELSE {}
 
 \* Lyapunov equation on the stable variables (their block of T must not load on the unit-root variables)
 StableIdx(id) == LET RECURSIVE F(_)
@@ -32,11 +49,12 @@ StableIdx(id) == LET RECURSIVE F(_)
                  IN F((1..Len(GModel(id).vars)) \ UnitVars(id))
 Sub(M, idx, jdx) == [i \in 1..Len(idx) |-> [j \in 1..Len(jdx) |-> M[idx[i]][jdx[j]]]]
 \* innovation covariance of the stable block: R S R' with S = diag(sd^2)
-Innov(id, sd) == LET Rm == Sub(GR0(id), StableIdx(id), [j \in 1..Len(GModel(id).shocks) |-> j])
-                     S == [i \in 1..Len(sd) |-> [j \in 1..Len(sd) |-> IF i = j THEN RMul(sd[i], sd[i]) ELSE RZero]]
-                 IN RMatMul(RMatMul(Rm, S), RTranspose(Rm))
+InnovV(id, vr) == LET Rm == Sub(GR0(id), StableIdx(id), [j \in 1..Len(GModel(id).shocks) |-> j])
+                      S == [i \in 1..Len(vr) |-> [j \in 1..Len(vr) |-> IF i = j THEN vr[i] ELSE RZero]]
+                  IN RMatMul(RMatMul(Rm, S), RTranspose(Rm))
 \* vec form: unknowns w[(i-1)n + j] = Omega[i][j];  Omega - T Omega T' = Q
-Lyap(id, sd) == LET idx == StableIdx(id) n == Len(idx) Ts == Sub(GModel(id).T, idx, idx) Qm == Innov(id, sd)
+\* vr: shock variances
+LyapV(id, vr) == LET idx == StableIdx(id) n == Len(idx) Ts == Sub(GModel(id).T, idx, idx) Qm == InnovV(id, vr)
                     A == [r \in 1..(n * n) |-> [c \in 1..(n * n) |->
                             LET i == ((r - 1) \div n) + 1 j == ((r - 1) % n) + 1 k == ((c - 1) \div n) + 1 l == ((c - 1) % n) + 1 IN
                             RSub(IF r = c THEN ROne ELSE RZero, RMul(Ts[i][k], Ts[j][l]))]]
@@ -44,6 +62,7 @@ Lyap(id, sd) == LET idx == StableIdx(id) n == Len(idx) Ts == Sub(GModel(id).T, i
                     s == RSolve(A, b) IN
                 IF ~s.ok THEN [ok |-> FALSE]
                 ELSE [ok |-> TRUE, Om |-> [i \in 1..n |-> [j \in 1..n |-> s.x[(i - 1) * n + j]]], Ts |-> Ts, Q |-> Qm]
+Lyap(id, sd) == LyapV(id, [i \in 1..Len(sd) |-> RMul(sd[i], sd[i])])      \* sd: shock standard deviations
 \* the defining property, checked by TLC on every scenario
 LyapOk(ly) == ly.ok => /\ ly.Om = RMatAdd(RMatMul(RMatMul(ly.Ts, ly.Om), RTranspose(ly.Ts)), ly.Q)
                        /\ ly.Om = RTranspose(ly.Om)
@@ -57,4 +76,24 @@ QuadSum(Cs, U, V, j, a, b) ==       \* U, V: sequences over lags 0..1 of coeffic
     ELSE IF b > Len(V) THEN QuadSum(Cs, U, V, j, a + 1, 1)
     ELSE RAdd(RDot(U[a], RMatVec(Cs[j + (b - 1) - (a - 1)], V[b])), QuadSum(Cs, U, V, j, a, b + 1))
 CTable(ly) == [k \in -3..3 |-> Ck(ly, k)]
+
+Unit(n) == [i \in 1..n |-> RZero]
+\* coefficient vectors (over the stable variables, for lags 0 and 1) of element e of the acov vector, or "unit" if it loads on a unit root
+StablePos(id, j) == CHOOSE p \in 1..Len(StableIdx(id)) : StableIdx(id)[p] = j
+Coefs(id, tx, lag) == [p \in 1..Len(StableIdx(id)) |->
+    LET S == {i \in 1..Len(tx) : tx[i][2] = StableIdx(id)[p] /\ tx[i][3] = -lag} IN
+    IF S = {} THEN RZero ELSE tx[CHOOSE i \in S : TRUE][1]]
+LoadsUnit(id, tx) == \E i \in 1..Len(tx) : tx[i][2] \in UnitVars(id)
+Elem(id, e) == LET m == GModel(id) nv == Len(m.vars) IN
+    IF e <= nv THEN (IF e \in UnitVars(id) THEN [unit |-> TRUE]
+                     ELSE [unit |-> FALSE, U |-> << [p \in 1..Len(StableIdx(id)) |-> IF StableIdx(id)[p] = e THEN ROne ELSE RZero], Unit(Len(StableIdx(id))) >>, tw |-> <<>>])
+    ELSE LET q == m.meqs[e - nv] IN
+         IF LoadsUnit(id, q.tx) THEN [unit |-> TRUE]
+         ELSE [unit |-> FALSE, U |-> << Coefs(id, q.tx, 0), Coefs(id, q.tx, 1) >>, tw |-> q.tw]
+\* measurement-shock part of the covariance (order 0 only): sum over shocks of h1 h2 sdw^2
+RECURSIVE ShockCov(_, _, _, _)
+ShockCov(tw1, tw2, sdw, i) == IF i > Len(tw1) THEN RZero
+    ELSE LET S == {k \in 1..Len(tw2) : tw2[k][2] = tw1[i][2]} IN
+         RAdd(IF S = {} THEN RZero ELSE RMul(RMul(tw1[i][1], tw2[CHOOSE k \in S : TRUE][1]), RMul(sdw, sdw)), ShockCov(tw1, tw2, sdw, i + 1))
+
 =============================================================================
